@@ -92,6 +92,9 @@ void LoadData(const JSON& data, ccl::semantic::RSModel& model) {
   SetOfEntities calculated{};
   for (auto it = begin(data); it != end(data); ++it) {
     const auto uid = it->at("entityUID").get<EntityUID>();
+    if (!model.Contains(uid)) {
+      throw JSON::other_error::create(501, "data record refers to unknown entity " + std::to_string(uid), &*it);
+    }
     if (it->at("wasCalculated").get<bool>()) {
       calculated.insert(uid);
     }
